@@ -52,7 +52,7 @@ pub static PLANS: &[PropPlan] = &[PropPlan {
     assumptions: &[
         "one run in four generates documents that repeat member names (well-formed per RFC 8259): a lookup by key then means the first member of that name, as the DOM of the raw text answers, and iteration is compared position by position; get_many is not used on such documents (it visits every member of a repeated name, the multi-path API's own semantics); number literals come from the full RFC grammar incl. digit runs longer than 32 bytes",
         "a clone of an owned lazy value whose cache may have been loaded is allowed to serialize either as its raw text or as its one-level parsed form (children verbatim, scalars by value); everything else is compared byte for byte",
-        "as_raw_number on a number may be Some(literal) or None (the DOM only keeps raw numbers on request); on anything else it must be None",
+        "as_raw_number: a handle that holds its number as raw text (every borrowed lazy value; an owned lazy value that is not a clone of a possibly loaded one) must answer Some(literal); a parsed number may answer None (the DOM only keeps raw numbers on request); on anything that is not a number it must be None",
     ],
     real_vs_stub: "real: sonic-rs parser skip/get paths, LazyValue, OwnedLazyValue, LazyArray/LazyObject, serializer raw-emission path, serde glue; simulated: heap bookkeeping only (single simulated caller); absent: threads (C18 covers them), clock, network, disk",
     probes: &["lazy_handles", "lazy_steps", "lazy_mutations", "lazy_clones", "lazy_conversions", "lazy_route_get", "lazy_route_iter", "lazy_route_serde", "lazy_route_owned_serde", "lazy_route_from_lazy", "lazy_route_to_lazyvalue", "lazy_route_get_many", "lazy_reserialize"],
